@@ -55,6 +55,9 @@ impl Interner {
     }
 }
 
+/// a field name, numbered in Coq through the name table generated from the .proto sources
+fn coq_name(n: &str) -> String { format!("(nm \"{}\")", n.replace('"', "\"\"")) }
+
 fn coq_rt(rt: &RuntimeType, it: &mut Interner, depth: usize) -> String {
     match rt {
         RuntimeType::I32 => "TInt I32".into(), RuntimeType::I64 => "TInt I64".into(),
@@ -82,7 +85,7 @@ fn coq_msg_ty(md: &MessageDescriptor, it: &mut Interner, depth: usize) -> String
             RuntimeFieldType::Repeated(rt) => format!("TArr ({})", coq_rt(&rt, it, depth)),
             RuntimeFieldType::Map(k, v) => format!("TMap ({}) ({})", coq_kty(&k), coq_rt(&v, it, depth)),
         };
-        format!("FD {} {} {} ({})", coq_n(it.id(yara_name(&fd).as_bytes())), coq_n(fd.number() as u64), coq_bool(ignored(&fd)), t)
+        format!("FD {} {} {} ({})", coq_name(&yara_name(&fd)), coq_n(fd.number() as u64), coq_bool(ignored(&fd)), t)
     }).collect();
     format!("TMsg {} [{}] []", syn, fields.join("; "))
 }
@@ -179,7 +182,7 @@ fn coq_steps(p: &[Step], it: &mut Interner) -> String {
 }
 fn coq_step(s: &Step, it: &mut Interner) -> String {
     match s {
-        Step::Field(n) => format!("SField {}", coq_n(it.id(n.as_bytes()))),
+        Step::Field(n) => format!("SField {}", coq_name(n)),
         Step::Index(i) => format!("SIndex {}", coq_z(*i as i128)),
         Step::KeyI(k) => format!("SKey (VInt {})", coq_z(*k as i128)),
         Step::KeyS(k) => format!("SKey (VStr {})", coq_n(it.id(k))),
@@ -393,6 +396,26 @@ fn gen_msg(md: &MessageDescriptor, rng: &mut Rng, depth: usize) -> Box<dyn Messa
     msg
 }
 
+// ------------------------------------------------------------------ field indexes from the IR
+#[derive(Clone)]
+struct IrBuf(std::sync::Arc<std::sync::Mutex<Vec<u8>>>);
+impl std::io::Write for IrBuf {
+    fn write(&mut self, b: &[u8]) -> std::io::Result<usize> { self.0.lock().unwrap().extend_from_slice(b); Ok(b.len()) }
+    fn flush(&mut self) -> std::io::Result<()> { Ok(()) }
+}
+/// the `index` of every `SYMBOL Field { index: N, is_root: false, .. }` of an IR dump, in order
+fn ir_field_indexes(ir: &str) -> Vec<usize> {
+    let mut v = vec![];
+    for line in ir.lines() {
+        if let Some(p) = line.find("SYMBOL Field { index: ") {
+            let rest = &line[p + "SYMBOL Field { index: ".len()..];
+            let num: String = rest.chars().take_while(|c| c.is_ascii_digit()).collect();
+            if rest.contains("is_root: false") { if let Ok(n) = num.parse() { v.push(n); } }
+        }
+    }
+    v
+}
+
 // ------------------------------------------------------------------ one case
 struct CaseOut { coq: String, json: String, queries: usize, skipped: usize, kinds: Vec<&'static str>, true_verdicts: usize }
 
@@ -406,14 +429,17 @@ fn run_case(module: &str, msg: &dyn MessageDyn, data: &[u8], supply: bool, label
     // sample if there are too many
     while queries.len() > max_q { let i = rng.below(queries.len() as u64) as usize; queries.swap_remove(i); }
     let mut comp = yara_x::Compiler::new();
-    let mut accepted: Vec<(usize, String)> = vec![];
+    let ir = IrBuf(Default::default());
+    comp.set_ir_writer(ir.clone());
+    let mut accepted: Vec<(usize, String, Vec<usize>)> = vec![];
     let mut skipped = 0usize;
     let mut first_skip = String::new();
     for (i, q) in queries.iter().enumerate() {
         let text = query_text(module, q);
         let src = format!("import \"{}\"\nrule q{} {{ condition: {} }}", module, i, text);
+        ir.0.lock().unwrap().clear();
         match comp.add_source(src.as_str()) {
-            Ok(_) => accepted.push((i, text)),
+            Ok(_) => { let dump = String::from_utf8_lossy(&ir.0.lock().unwrap()).into_owned(); accepted.push((i, text, ir_field_indexes(&dump))); }
             Err(e) => { skipped += 1; if first_skip.is_empty() { first_skip = format!("{} :: {}", text, e.to_string().lines().next().unwrap_or("")); } }
         }
     }
@@ -429,14 +455,14 @@ fn run_case(module: &str, msg: &dyn MessageDyn, data: &[u8], supply: bool, label
     let mut jq = vec![];
     let mut kinds = vec![];
     let mut trues = 0;
-    for (i, text) in &accepted {
+    for (i, text, idx) in &accepted {
         let v = matched.contains(&format!("q{}", i));
         if v { trues += 1; }
-        qs.push(format!("({}, {})", coq_query(&queries[*i], &mut it), coq_bool(v)));
-        jq.push(format!("[{},{}]", json_str(text), v));
+        qs.push(format!("({}, {}, Some {})", coq_query(&queries[*i], &mut it), coq_bool(v), coq_list(idx, |x| coq_nat(*x))));
+        jq.push(format!("[{},{},{:?}]", json_str(text), v, idx));
         kinds.push(match &queries[*i] { Query::Defined(_) => "q:defined", Query::Eq(..) => "q:eq", Query::Len(..) => "q:len", Query::Any(..) => "q:for-any", Query::All(..) => "q:for-all", Query::MapAny(..) => "q:map-for-any" });
     }
-    let coq = format!("mkCase ({}) {} [{}]", ty, val, qs.join("; "));
+    let coq = format!("mk \"{}\" (fun nm => ({}, {}, [{}]))", module, ty, val, qs.join("; "));
     let json = format!("{{\"label\":{},\"module\":{},\"supplied\":{},\"data_hex\":\"{}\",\"message_hex\":\"{}\",\"skipped\":{},\"first_skipped\":{},\"queries\":[{}]}}",
         json_str(label), json_str(module), supply, if data.len() <= 4096 { hex(data) } else { String::from("(large)") },
         hex(&msg.write_to_bytes_dyn().unwrap_or_default()), skipped, json_str(&first_skip), jq.join(","));
@@ -558,7 +584,7 @@ pub fn run(args: &[String]) -> i32 {
     let max_q = arg_u64(args, "--max-queries", 220);
     let out = arg_val(args, "--out").expect("--out");
     let samples = arg_val(args, "--samples");
-    let prelude = "From Coq Require Import List NArith ZArith Bool.\nFrom YV Require Import Types.StructModel Types.StructCheck.\nImport ListNotations.\n";
+    let prelude = "From Coq Require Import List NArith ZArith Bool String.\nFrom YV Require Import Types.StructModel Types.StructCheck.\nImport ListNotations.\nLocal Open Scope string_scope.\n";
     let mut shards = Shards::new(Path::new(&out), prelude, 6);
     let mut stats = Stats::default();
     let mut total_q = 0u64;
@@ -606,7 +632,7 @@ pub fn run(args: &[String]) -> i32 {
                 stats.inc("CRASHED");
                 let json = format!("{{\"label\":{},\"index\":{},\"seed\":{},\"crashed\":true,\"exit\":{},\"trace\":[{}]}}", json_str(&label), idx, seed, json_str(&status),
                     trace.iter().map(|t| json_str(t)).collect::<Vec<_>>().join(","));
-                shards.push("mkCase (TInt I64) (VInt 0) [(QDefined [], false)]".to_string(), json);
+                shards.push("mkCase \"\" (TInt I64) (VInt 0) [(QDefined [], false, None)]".to_string(), json);
                 next = idx + 1;
             }
         } else if next == start {
